@@ -144,6 +144,25 @@ class YieldCounter:
                 if isinstance(k_, Lin) and isinstance(s_, Lin) and entails_ge0(env.facts, k_):
                     return self.amin(env, k_, s_)
                 return Opaque("nlargest bounds")
+            if nm == "chain" and e.args and not e.keywords and isinstance(e.func, ast.Name):
+                tot: Any = Lin.c(0)
+                for a_ in e.args:
+                    tot = self.add(tot, self.size_of(st, a_))
+                return tot
+            if nm == "islice" and len(e.args) == 2:
+                s_, k_ = self.size_of(st, e.args[0]), evaluate(env, e.args[1])
+                if isinstance(s_, Lin) and isinstance(k_, Lin) and entails_ge0(env.facts, k_):
+                    return self.amin(env, s_, k_)
+                return Opaque("islice bounds")
+            if nm == "from_iterable" and len(e.args) == 1 and isinstance(e.args[0], ast.Call):
+                inner = e.args[0]
+                g_, off_ = self._resolve_helper(inner)
+                if g_ is not None and self.yields_in(g_.node):
+                    n_ = self._yielded_tuple_len(g_)
+                    cnt_ = self._generator_helper_size(st, inner, g_, off_)
+                    if n_ is not None and isinstance(cnt_, Lin):
+                        return cnt_.scale(n_)
+                return Opaque("size of the chained iterables")
             if nm == "range" and len(e.args) == 1:
                 v = evaluate(env, e.args[0])
                 return v if isinstance(v, Lin) and entails_ge0(env.facts, v) else Opaque("range bound not provably >= 0")
@@ -195,16 +214,11 @@ class YieldCounter:
         arguments bound to its parameters; a tuple literal returned by every return statement has that many elements"""
         if self.prog is None or self._hdepth >= 2:
             return None
-        target, off = None, 0
-        if isinstance(e.func, ast.Attribute) and is_self_attr(e.func) and self.fn.cls is not None:
-            target, off = self.prog.lookup_method(self.fn.cls, e.func.attr), 1
-        elif isinstance(e.func, ast.Name):
-            full = self.prog.resolve_name(self.fn.module, e.func.id)
-            target = self.prog.functions.get(full) if full else None
-            if target is not None and target.cls is not None:
-                target = None
-        if target is None or not isinstance(target.node, (ast.FunctionDef, ast.AsyncFunctionDef)) or self.yields_in(target.node):
+        target, off = self._resolve_helper(e)
+        if target is None or not isinstance(target.node, (ast.FunctionDef, ast.AsyncFunctionDef)):
             return None
+        if self.yields_in(target.node):
+            return self._generator_helper_size(st, e, target, off)
         rets = [r for r in ast.walk(target.node) if isinstance(r, ast.Return) and r.value is not None]
         if rets and all(isinstance(r.value, ast.Tuple) for r in rets) and len({len(r.value.elts) for r in rets}) == 1:
             return Lin.c(len(rets[0].value.elts))
@@ -247,6 +261,89 @@ class YieldCounter:
         finally:
             self.fn, self._cur = saved_fn, saved_cur
             self._hdepth -= 1
+
+    def _resolve_helper(self, e: ast.Call):
+        """(function, number of leading parameters the call does not supply) for self.m(..) / Class.m(..) / f(..) of the repository"""
+        if self.prog is None:
+            return None, 0
+        target, off = None, 0
+        if isinstance(e.func, ast.Attribute) and is_self_attr(e.func) and self.fn.cls is not None:
+            target, off = self.prog.lookup_method(self.fn.cls, e.func.attr), 1
+        elif isinstance(e.func, ast.Attribute) and isinstance(e.func.value, ast.Name):
+            full = self.prog.resolve_name(self.fn.module, e.func.value.id)
+            ci = self.prog.classes.get(full) if full else None
+            if ci is not None:
+                target, off = self.prog.lookup_method(ci, e.func.attr), 1
+        elif isinstance(e.func, ast.Name):
+            full = self.prog.resolve_name(self.fn.module, e.func.id)
+            target = self.prog.functions.get(full) if full else None
+            if target is not None and target.cls is not None:
+                target = None
+        if target is not None and any((isinstance(d, ast.Name) and d.id == "staticmethod") for d in getattr(target.node, "decorator_list", [])):
+            off = 0
+        return target, off
+
+    def _bind_helper(self, st: YState, e: ast.Call, target, off: int) -> YState:
+        a = target.node.args
+        names = [x.arg for x in a.posonlyargs + a.args][off:]
+        sub = YState(st.env.copy(), Lin.c(0))
+        for p_, arg in list(zip(names, e.args)) + [(k_.arg, k_.value) for k_ in e.keywords if k_.arg in names]:
+            sz = self.size_of(st, arg)
+            if isinstance(sz, Lin):
+                sub.sizes[p_] = sz
+            v = evaluate(st.env, arg)
+            if isinstance(v, Lin):
+                sub.env.vars[p_] = v
+        return sub
+
+    def _generator_helper_size(self, st: YState, e: ast.Call, target, off: int) -> Any:
+        """number of items a generator helper of the repository yields for these arguments: its body is counted like the function under analysis"""
+        sub = self._bind_helper(st, e, target, off)
+        saved_fn, saved_cur = self.fn, getattr(self, "_cur", None)
+        self.fn = target
+        self._hdepth += 1
+        try:
+            body = [b for b in target.node.body if not (isinstance(b, ast.Expr) and isinstance(b.value, ast.Constant))]
+            outs = self.block(body, [sub])
+            counts = {repr(o.count) for o in outs}
+            if outs and len(counts) == 1 and isinstance(outs[0].count, Lin) and not any(o.notes for o in outs):
+                st.env.facts = outs[0].env.facts
+                return outs[0].count
+            return None
+        finally:
+            self.fn, self._cur = saved_fn, saved_cur
+            self._hdepth -= 1
+
+    def _yielded_tuple_len(self, target) -> Optional[int]:
+        """when every value a generator helper yields is a tuple of the same length (a literal, or a call annotated -> tuple[A, B]): that length"""
+        lens = set()
+        for y in ast.walk(target.node):
+            if isinstance(y, ast.Yield) and y.value is not None:
+                v = y.value
+                if isinstance(v, ast.Tuple):
+                    lens.add(len(v.elts))
+                elif isinstance(v, ast.Call):
+                    saved = self.fn
+                    self.fn = target
+                    try:
+                        g, _ = self._resolve_helper(v)
+                    finally:
+                        self.fn = saved
+                    ann = getattr(g.node, "returns", None) if g is not None else None
+                    if isinstance(ann, ast.Subscript) and norm(ann.value) in ("tuple", "Tuple") and isinstance(ann.slice, ast.Tuple) \
+                            and not any(isinstance(x, ast.Constant) and x.value is Ellipsis for x in ann.slice.elts):
+                        lens.add(len(ann.slice.elts))
+                    else:
+                        rets_ = [r for r in ast.walk(g.node) if isinstance(r, ast.Return) and r.value is not None] if g is not None else []
+                        if rets_ and all(isinstance(r.value, ast.Tuple) for r in rets_) and len({len(r.value.elts) for r in rets_}) == 1:
+                            lens.add(len(rets_[0].value.elts))        # every return statement of the callee is a tuple literal of that length
+                        else:
+                            return None
+                else:
+                    return None
+            elif isinstance(y, ast.YieldFrom):
+                return None
+        return lens.pop() if len(lens) == 1 else None
 
     def add(self, a: Any, b: Any) -> Any:
         if isinstance(a, Lin) and isinstance(b, Lin):
@@ -311,6 +408,30 @@ class YieldCounter:
                             env.vars[t.elts[0].id] = q
                             env.vars[t.elts[1].id] = av - q.scale(d_.value)
                             done_dm = True
+                    if not done_dm and isinstance(s.value, ast.Call) and all(isinstance(el, ast.Name) for el in t.elts) and self._hdepth < 2:
+                        # a, b = helper(x): a straight-line helper of the repository returning a tuple of that many numbers
+                        g_, off_ = self._resolve_helper(s.value)
+                        if g_ is not None and isinstance(g_.node, ast.FunctionDef) and not self.yields_in(g_.node):
+                            body_ = [b for b in g_.node.body if not (isinstance(b, ast.Expr) and isinstance(b.value, ast.Constant))]
+                            if body_ and isinstance(body_[-1], ast.Return) and isinstance(body_[-1].value, ast.Tuple) and len(body_[-1].value.elts) == len(t.elts) \
+                                    and all(isinstance(b, (ast.Assign, ast.AnnAssign)) for b in body_[:-1]):
+                                sub = self._bind_helper(st, s.value, g_, off_)
+                                saved_fn = self.fn
+                                self.fn = g_
+                                self._hdepth += 1
+                                try:
+                                    outs_ = self.block(body_[:-1], [sub])
+                                    if len(outs_) == 1:
+                                        vals_ = [evaluate(outs_[0].env, x) for x in body_[-1].value.elts]
+                                        if all(isinstance(v_, Lin) for v_ in vals_):
+                                            st.env.facts = outs_[0].env.facts
+                                            for el, v_ in zip(t.elts, vals_):
+                                                env.vars[el.id] = v_
+                                                st.sizes.pop(el.id, None)
+                                            done_dm = True
+                                finally:
+                                    self.fn = saved_fn
+                                    self._hdepth -= 1
                     if not done_dm:
                         for el in t.elts:
                             if isinstance(el, ast.Name):
@@ -472,6 +593,13 @@ class YieldCounter:
     def for_loop(self, s: ast.For, st: YState) -> list[YState]:
         env = st.env
         it = s.iter
+        if isinstance(it, ast.Call) and call_name(it) in ("count", "cycle", "repeat") and not (call_name(it) == "repeat" and len(it.args) > 1) \
+                and not s.orelse and any(self.yields_in(b) for b in s.body):
+            # an endless iterator: the loop is 'while True' with a counter nobody bounds it by
+            w = ast.copy_location(ast.While(test=ast.copy_location(ast.Constant(value=True), s), body=s.body, orelse=[]), s)
+            for tn in [n.id for n in ast.walk(s.target) if isinstance(n, ast.Name)]:
+                env.vars[tn] = Opaque("position in an endless iterator")
+            return self.while_loop(w, st)
         idx_name = elem_names = None
         m: Any = None
         tnames = [n.id for n in ast.walk(s.target) if isinstance(n, ast.Name)]
